@@ -55,6 +55,7 @@ type (
 // ---------- contract model ----------
 
 type LoopSpec struct {
+	Summarize  bool // preservation obligations use the loop asserts as the summary of the body
 	Asserts    []Clause
 	Invariants []Clause
 	Unroll     int // >0: unroll at most this many iterations, with an unwinding assertion
@@ -319,6 +320,8 @@ func ParseContractFile(path, pkgPath string) (*ContractFile, error) {
 					return nil, fail(err)
 				}
 				ls.Asserts = append(ls.Asserts, Clause{Text: r3, E: e, Line: rc.line, File: path})
+			case "summarize":
+				ls.Summarize = true
 			case "unroll":
 				ls.Unroll = 64
 				if strings.TrimSpace(r3) != "" {
